@@ -211,6 +211,7 @@ func runC10(w *World) {
 	}
 	w.NonTrivial = hit
 	var calls []*Call
+	var deleted *PeerH
 	switch action {
 	case "close":
 		calls = append(calls, e.Close())
@@ -233,6 +234,7 @@ func runC10(w *World) {
 		}
 	case "deletepeer":
 		v := victim.Cur
+		deleted = v
 		calls = append(calls, w.CallAsync("DeletePeer", func() error { return e.Srv.DeletePeer(v.Cfg.RemoteAddress) }))
 	case "accept-error":
 		e.Lis[0].InjectAcceptError(errors.New("injected accept failure"))
@@ -240,7 +242,7 @@ func runC10(w *World) {
 	if action != "deletepeer" {
 		ch.Ending = true
 	}
-	invSeq, invAt := w.Seq(), w.Now()
+	invSeq, invAt, slept0 := w.Seq(), w.Now(), w.LogSlept
 	returned := func() bool {
 		for _, c := range calls {
 			if !c.Returned {
@@ -257,8 +259,9 @@ func runC10(w *World) {
 		return
 	}
 	retSeq, retAt := w.Seq(), w.Now()
-	if retAt-invAt > time.Second {
-		w.Violate("C10/return/slow-"+action, "%s needed %v of virtual time to return", action, retAt-invAt)
+	if lag := w.LogSlept - slept0 + w.LogMax; retAt-invAt > time.Second+lag {
+		// (lag: how long the user's Logger blocked corebgp goroutines meanwhile)
+		w.Violate("C10/return/slow-"+action, "%s needed %v of virtual time to return (the Logger accounts for %v)", action, retAt-invAt, lag)
 		return
 	}
 	// (4) callbacks
@@ -268,7 +271,7 @@ func runC10(w *World) {
 			return
 		}
 		victim.Present = false
-		victim.Cur.Plug.MarkStopped(calls[0].RetSeq)
+		deleted.Plug.MarkStopped(calls[0].RetSeq)
 	} else {
 		for _, cp := range ch.Peers {
 			for _, p := range cp.Incarnations {
@@ -344,7 +347,8 @@ func runC10(w *World) {
 		w.Probe("settle-moved-clock")
 	}
 	if action == "deletepeer" {
-		if at := victim.Cur.AddTask; at != nil {
+		// (the incarnation DeletePeer removed: the churn task may have re-added the peer by now)
+		if at := deleted.AddTask; at != nil {
 			for _, t := range w.LibTasksAlive() {
 				if t.IsDescendantOf(at) {
 					w.Violate("C10/leak/deletepeer", "task %s (blocked at %s), created for the deleted peer, is still alive after DeletePeer returned", t.ID, t.Site)
